@@ -9,6 +9,7 @@ import (
 	"encoding/xml"
 	"errors"
 	"fmt"
+	"io"
 	"io/ioutil"
 	"strconv"
 	"strings"
@@ -223,7 +224,13 @@ func (c *Conf) InitFromBytes(content []byte) error {
 	nodeStack = append(nodeStack, c.root)
 	for {
 		currNode := nodeStack[len(nodeStack)-1]
-		token, _ := xmlDecoder.Token()
+		token, err := xmlDecoder.Token()
+		if err != nil {
+			if err == io.EOF {
+				break
+			}
+			return fmt.Errorf("parse config error: %v", err)
+		}
 		if token == nil {
 			break
 		}
